@@ -7,6 +7,7 @@ server endpoints for every suite family / version / connection-ID configuration.
 A panic inside an endpoint goroutine kills the test binary: the harness journals the id of every case before
 it starts; the driver re-runs the crashed case alone with a per-datagram trace to name the datagram, and
 restarts the shard after it."""
+import json
 import os
 import re
 from concurrent.futures import ThreadPoolExecutor
@@ -429,6 +430,60 @@ def run(chk):
                                           "before any DTLS parsing (12000 unparsable 1000-byte datagrams suffice)"})
             break
 
+    # ---- listener leg: the server behind the library's own UDP listener (internal/net/udp -> per-connection packet
+    #      queue -> Conn), loopback sockets, real time.  Datagrams of 64 ... 65507 bytes that do not parse, sent from the
+    #      genuine client's address after and during the handshake, must be consumed and dropped: the handshake completes,
+    #      the next two genuine application records and one in the other direction are delivered within 2 s each, and the
+    #      server's Read reports no error
+    outl = vlib.out_path("c08l")
+    rcl, ol = vlib.go_test(".", "^TestVerifC08Listener$", {"VERIF_SEED": chk.seed, "VERIF_TIER": chk.tier, "VERIF_OUT": outl},
+                           tags=["c08"], timeout=900)
+    lrows = [r for r in vlib.read_jsonl(outl) if r.get("kind") == "listener"]
+    vlib.cleanup(outl)
+    if rcl != 0 and is_crash(ol):
+        msg, site, func = top_repo_frame(ol)
+        found = True
+        chk.finding(site or "listener.go / internal/net/udp", {"monitor": "panic", "function": func or "?", "leg": "listener"},
+                    "the listener leg crashed: %s" % msg, {"output": ol[-4000:]})
+    elif rcl != 0 or not lrows:
+        chk.broken("harness TestVerifC08Listener no longer runs (%s)" % vlib.classify_go_failure(ol), ol)
+    lrun = [r for r in lrows if not r.get("skipped") and not r.get("note") and r.get("sent")]
+    unsent = [r for r in lrows if not r.get("skipped") and (r.get("note") or not r.get("sent"))]
+    if len(unsent) > len(lrows) // 2:
+        chk.broken("listener leg: most datagrams could not be sent over loopback UDP", json.dumps(unsent[:3]))
+
+    def listener_bad(r):
+        if r["hs_c"] != "ok" or r["hs_s"] != "ok":
+            return "the handshake does not complete (client=%s server=%s)" % (r["hs_c"], r["hs_s"])
+        if r.get("read_err"):
+            return "the server's Read returns \"%s\" (%s times)%s" % (
+                r["read_err"], "more than 200" if r["read_errs"] > 200 else r["read_errs"],
+                " and of the 2 genuine application records the client sends next %d are delivered" % r["delivered"])
+        if r["delivered"] < 2 or not r["echo"]:
+            return "of the 2 genuine application records the client sends next %d are delivered within 2 s each%s" % (
+                r["delivered"], "" if r["echo"] else "; the server's own payload does not reach the client")
+        return None
+    for phase in ("established", "handshake"):
+        lb = [r for r in lrun if r["phase"] == phase and listener_bad(r)]
+        if not lb:
+            continue
+        r = sorted(lb, key=lambda r: (r["size"], r["id"]))[0]
+        found = True
+        chk.finding("internal/net/udp/packet_conn.go receiveMTU / conn.go inboundBufferSize / internal/net/buffer.go "
+                    "PacketBuffer.ReadFrom (a packet longer than the reader's buffer is not consumed)",
+                    {"monitor": "datagram from the client's address wedges the connection behind the listener", "phase": phase},
+                    "server behind listenWithConfig over loopback UDP, variant %s; ONE datagram of %d bytes that is no DTLS record "
+                    "(fill %s) sent from the client's address %s: %s [failing sizes: %s; sizes without effect: %s]" % (
+                        r["variant"], r["size"], r["fill"],
+                        "after the handshake" if phase == "established" else "right after the client's handshake datagram #%d" % r["after"],
+                        listener_bad(r), sorted({x["size"] for x in lb}),
+                        sorted({x["size"] for x in lrun if x["phase"] == phase and not listener_bad(x)})),
+                    {"how": "TestVerifC08Listener: listenWithConfig(\"udp\", 127.0.0.1:0), Accept + Handshake; client over its own "
+                            "UDP socket; write `size` bytes of `fill` from that socket to the listener's address; then the client "
+                            "writes two payloads, the server one", "row": r,
+                     "variant": r["variant"], "phase": phase, "size": r["size"], "fill": r["fill"], "after": r["after"],
+                     "all": [(x["id"], x["variant"], x["phase"], x["after"], x["size"], x["fill"]) for x in lb[:30]]})
+
     # ---- M1 panic / deadlock / livelock: one finding per (function, message); all cases that hit it listed
     by_site = {}
     for c in crashes:
@@ -733,6 +788,14 @@ def run(chk):
             if t is not None:
                 terms.append(t)
                 tcases.append((c, o))
+    for r in lrun:
+        if r["size"] > 8192:
+            # longer than the connection's read buffer and not DTLS: Rec.C08Robust DOversized - consumed, no effect
+            est = r["phase"] == "established"
+            terms.append("(false, %s, KOversized, (%s, false, false, false))" % (
+                cbool(est), cbool(bool(r.get("read_err")) or r["hs_c"] != "ok" or r["hs_s"] != "ok")))
+            tcases.append(({"variant": r["variant"], "id": -1},
+                           {"class": "oversized", "est": est, "listener": True, "eff": {}, "row": r}))
     if not ok_model:
         chk.broken("model Rec/C08Run.v no longer compiles", mo)
     elif terms:
@@ -747,7 +810,7 @@ def run(chk):
                             "observed effect of a %s datagram differs from Rec/C08Robust.v (as-coded model) "
                             "[variant %s]" % (o["class"], c["variant"]),
                             {"case_id": c["id"], "obs": o, "term": uniq[i], "correspondence": "Rec.C08Run.c08_ok"},
-                            no_input=(obs_violation(o) is None and not found))
+                            no_input=(not o.get("listener") and obs_violation(o) is None and not found))
 
     # ---- accounting
     n_inj = sum(c["inj"] for c in cases)
@@ -765,6 +828,8 @@ def run(chk):
     chk.count("e2e", n_inj, keys, samples=[{"variant": c["variant"], "stage": c["stage"], "gen": c["gen"],
                                             "obs": (c["obs"] or [])[:2]} for c in cases[:3]])
     chk.count("psk-length-unit", len(prows), [(r["len"], bool(r.get("panic"))) for r in prows], samples=prows[-3:])
+    chk.count("listener", len(lrun), [(r["variant"], r["phase"], r["after"], r["size"], r["fill"]) for r in lrun],
+              samples=lrun[:2])
     chk.count("packet-buffer-unit", len(brows), [(r["written"], r["size"]) for r in brows], samples=brows[:2])
     chk.count("decrypt-unit", len(urows), [(u["suite"], u["kind"], u.get("err", "")) for u in urows],
               samples=urows[:2])
